@@ -42,6 +42,13 @@ def failingOf (id : PropId) (p : Program) (r : Result) (linksOk : Bool) : List S
   | .C18 => if r.panic.isSome then [] else P_C18_shape p r linksOk ++ (if acceptedWF p r then P_C18_values p r else [])
   | .C19 => P_C19 p r ++ P_C19_visited p r
 
+/-- validated-only clauses (no theorem says they are empty on the model's result; they are evaluated
+on the implementation's dump and on the model's result alike, like `failingOf`) -/
+def failingExtra (id : PropId) (r : Result) : List String :=
+  match id with
+  | .C19 => P_C19_local r
+  | _ => []
+
 /-- projection of a result that the correspondence compares -/
 def projOf (id : PropId) (r : Result) : String :=
   match id with
